@@ -58,6 +58,25 @@ def to_expr(tree):
     raise ValueError(tree)
 
 
+def nullable_repetition_family(max_body=4):
+    """(star|plus) over every nullable body with <= max_body nodes, alone and followed by an atom: repetitions of bodies
+    that can match nothing, in one or several ways (epsilon cycles in the construction)."""
+    from vf.ref import regex as R
+
+    out = []
+    for n in range(1, max_body + 1):
+        for body in trees_of_size(n):
+            if not R.nullable(R.norm(body)):
+                continue
+            for op in ("star", "plus"):
+                rep = (op, body)
+                out.append(rep)
+                for a in ATOMS[:2]:
+                    out.append(("cat", rep, ("sym", a)))
+                    out.append(("cat", ("sym", a), rep))
+    return out
+
+
 def to_json(tree):
     return [tree[0]] + [to_json(c) if isinstance(c, tuple) else c for c in tree[1:]]
 
